@@ -130,6 +130,9 @@ def _filters():
     warnings.filterwarnings('ignore', category=BeartypeDecorHintPep585DeprecationWarning)
 
 
+TYPEHINT_UNSUPPORTED = ('AL', 'ALgi', 'ALr', 'InitI', 'PathS', 'TupU', 'TupUU')
+
+
 def run_case(t, h, th, fp, fr, conf, exp, o, r, rec):
     """Returns (verdict vector, problems list).  verdict: True accept / False reject / 'X' anomaly."""
     from beartype.door import is_bearable, die_if_unbearable
@@ -144,13 +147,15 @@ def run_case(t, h, th, fp, fr, conf, exp, o, r, rec):
     except TypeError:
         spellings = set()
     spellings.add(repr(h))
-    spellings.add(repr(th.hint))
+    if th is not None:
+        spellings.add(repr(th.hint))
     # One object for all six entry points: rebuilding it could change the iteration order of sets keyed on id()-hashed
     # members, i.e. hand different inputs to the entry points.  (One-shot iterators are rebuilt: a check must not
     # consume them, but that is C10's concern.)
     oneshot = o[0] == 'c' and o[1] in ('gen', 'iter')
     x = O.mk(o)
-    for entry in ENTRIES:
+    entries = ENTRIES if th is not None else [e for e in ENTRIES if not e.startswith('TypeHint')]
+    for entry in entries:
         if oneshot:
             x = O.mk(o)
         del rec[:]
@@ -214,7 +219,7 @@ def run_case(t, h, th, fp, fr, conf, exp, o, r, rec):
             if entry == 'return' and res is not x:
                 probs.append(('proceed', entry, 'decorated call did not return the original value'))
     if len(set(verd)) != 1:
-        probs.append(('disagree', 'all', 'entry points disagree: ' + ', '.join(f'{e}={v}' for e, v in zip(ENTRIES, verd))))
+        probs.append(('disagree', 'all', 'entry points disagree: ' + ', '.join(f'{e}={v}' for e, v in zip(entries, verd))))
     return verd, probs
 
 
@@ -241,7 +246,15 @@ def check_hint(t, confsel, gen, part, tier, seed):
         try:
             with warnings.catch_warnings():
                 warnings.simplefilter('ignore')
-                th = TypeHint(h)
+                try:
+                    th = TypeHint(h)
+                except Exception as e:
+                    # hint kinds the object-oriented API documents as not (yet) wrappable: "currently unsupported by
+                    # beartype.door.TypeHint".  No verdict is reached through it; the other four entry points are compared.
+                    if type(e).__name__ == 'BeartypeDoorNonpepException' and t[0] == 'a' and t[1] in TYPEHINT_UNSUPPORTED:
+                        th = None
+                    else:
+                        raise
                 fp = drive.make_param_only(h, conf)
                 fr = drive.make_return_only(h, conf)
         except Exception as e:
@@ -296,7 +309,7 @@ def run(ctx):
     assert HS.selftest() and O.selftest()
     drive.install_draw()
     hints = HE.hints(ctx.tier)
-    core = set(HE.level0()[:60] + HE.reps1('all') + HE.reps2()) if ctx.quick else set(hints[::3])
+    core = set(HE.level0(extra=False)[:60] + [HE.A(n) for n in HE.ATOMS_EXTRA[::3]] + HE.reps1('all') + HE.reps2()) if ctx.quick else set(hints[::3])
     _STATE.update(tier=ctx.tier, seed=ctx.seed, hints=hints, tbl=conf_table(), core=core)
     _STATE['shards'] = HE.shards(hints, NSHARDS)
     tot, outcomes = {}, set()
